@@ -46,7 +46,13 @@ func NewCtx(p *Prog, prop, tier string) *Ctx {
 }
 
 // Rule registers the text of a rule (printed in the evidence).
-func (c *Ctx) Rule(id, text string) { c.RuleText[id] = text }
+func (c *Ctx) Rule(id, text string) {
+	if old, ok := c.RuleText[id]; ok && old != text && !strings.Contains(old, text) {
+		c.RuleText[id] = old + " || " + text
+		return
+	}
+	c.RuleText[id] = text
+}
 
 // Fn resolves a module function by short name, recording it as analysed. A
 // missing function yields an undecided obligation for the given rule.
